@@ -298,8 +298,9 @@ where
         self.radio_kind.set_modulation_params(mdltn_params).await?;
         self.radio_kind.set_packet_params(rx_pkt_params).await?;
         self.radio_kind.set_channel(mdltn_params.frequency_in_hz).await?;
-        self.radio_mode = listen_mode.into();
-        self.radio_kind.set_irq_params(Some(self.radio_mode)).await?;
+        let radio_mode = listen_mode.into();
+        self.radio_kind.set_irq_params(Some(radio_mode)).await?;
+        self.radio_mode = radio_mode;
         Ok(())
     }
 
